@@ -55,6 +55,30 @@ def run(facts, cg, reviewed=None):
             seen_keys.add(s['key'])
             findings.append({'rule': 'R-UNTRUSTED', 'key': s['key'], 'function': s['function'],
                              'what': 'untrusted value reaches %s (%s) at %s without a dominating range check' % (s['kind'], ', '.join(s['operands']), s['at'])})
+    # the reviewed entries that lean on "validated when the archive is opened" are only as good as that validation:
+    # it must add the stored size (archive_size) to the absolute chunk offset with a checked addition
+    if any('validated not to overflow when the archive is opened' in reviewed[k] for k in used):
+        from ..terms import Terms, simplify, has_field, walk
+        T = Terms(facts)
+        ok = False
+        n_checked = 0
+        for b in facts.bodies.values():
+            if not b.id.startswith('bitar::archive::') or 'try_init' not in b.id:
+                continue
+            for bi, ct in b.calls():
+                if 'q' in ct['callee'] and ct['callee']['q'].split('::')[-1] == 'checked_add' and len(ct['args']) == 2:
+                    n_checked += 1
+                    a0 = simplify(T.resolve_env(simplify(T.of_operand(b, ct['args'][0]))))
+                    a1 = simplify(T.resolve_env(simplify(T.of_operand(b, ct['args'][1]))))
+                    for x, y in ((a0, a1), (a1, a0)):
+                        offs = has_field(x, 'archive_offset') or any(n[0] == 'cparam' for n in walk(x))
+                        if offs and has_field(y, 'archive_size') and not has_field(y, 'source_size'):
+                            ok = True
+        instances.append({'rule': 'R-UNTRUSTED(precondition)', 'what': 'end offset of every descriptor validated at open', 'checked_adds_in_try_init': n_checked, 'holds': ok})
+        if not ok:
+            findings.append({'rule': 'R-UNTRUSTED', 'key': 'R-UNTRUSTED|bitar::archive::Archive::try_init|precondition:end-offset-validated', 'function': 'bitar::archive::Archive::try_init',
+                             'what': 'the reviewed sinks `offset + size` (ChunkOffset::end, adjacent_reads) rely on try_init rejecting descriptors whose '
+                                     'absolute offset plus stored size (archive_size) overflows; no such checked addition is found there any more'})
     # a reviewed entry that matches no site any more suppresses nothing; it is reported in the evidence, not as a violation
     # (the site may have been rewritten in a form the checker discharges by itself)
     stale = [k for k in reviewed if k not in used]
